@@ -2,19 +2,34 @@
 the serialisers and the process are exercised by running the real binary)."""
 import base64, json, os, random, re, socket, struct, subprocess, threading, time
 import vlib, netcases
-from props import netprops
+from props import netprops, cliplan
+from props.c15 import tok as val_tokens
 
 LEVEL = "other"
-RULE = ("the real gamedig_cli binary (rebuilt from /repo on every run) against in-process loopback UDP servers replaying SPEC-generated "
+RULE = ("(1) PLAN: the real gamedig_cli binary built with the verification hook prints the plan of an invocation (game looked up, literal or resolved host, "
+        "port, timeout and extra settings, output mode and format) instead of querying; generated invocations — every game id of the table, unknown ids "
+        "(non-ASCII, blank, very long, not UTF-8), IPv4 / IPv6 literals in every notation and near-literals, host names that resolve and that do not, every "
+        "typed flag at its boundary values, every presence pattern of the two flattened flag groups, every mode x format — go to the binary and to the model "
+        "of main (driver entry `cli-plan`, Proto/CliPlan.lean) and must give the same plan or the same way out; oracle on the binary alone: exit rules of the "
+        "property and the hand-over of every flag value. (2) MIRRORS: the model's IP-literal parser, hex / base64 codecs, JSON printer (compact, pretty) and JSON "
+        "reader against std / hex / base64 / serde_json in the harness on generated and damaged inputs. (3) WRITERS: the real binary's output_result_* on values "
+        "of every shape (print hook): JSON / pretty JSON / XML byte for byte = the model's, BSON-hex / BSON-base64 decoded by the model's decoders = Python's, the "
+        "BSON inside = the value. (4) END TO END: the shipped binary (no hook) against in-process loopback UDP servers replaying SPEC-generated "
         "exchanges of Valve games (names, maps, rule keys and values with markup, control and non-ASCII characters; rule keys that are not "
-        "XML names are injected) x 2 output modes x 6 formats; stdout must be one well-formed document: JSON re-parsed and compared with the "
-        "library's own response (obtained in-process through the harness on the same exchange), XML compared byte for byte with the Lean "
-        "model's rendering of that JSON value (and parsed), BSON (hex / base64) decoded by an independent walker and compared; exit status 0. "
+        "XML names are injected) x 2 output modes x 6 formats; stdout must be one well-formed document: JSON read by Python AND by the model's reader and compared "
+        "with the library's own response (obtained in-process through the harness on the same exchange), reprinted by the model's printer byte for byte; generic "
+        "mode = the C15 accessor tables evaluated by the model on the protocol-specific value, byte for byte; XML compared byte for byte with the Lean "
+        "model's rendering of that JSON value (and parsed), BSON (hex / base64) decoded by the model's decoders and by an independent walker and compared; exit status 0. "
         "Invalid invocations of each kind (unknown game, unresolvable host, silent server, bad flag values) must exit non-zero with a message "
-        "and no panic. Distinct = distinct (case, mode, format) outputs.")
-ASSUMPTIONS = ["serde_json, quick-xml's writer, bson, base64, hex, clap and the system resolver are external: sampled here, not proved",
-               "the Debug format is only checked for being printed (it has no grammar to validate)"]
-TRUSTED = ["Lean model of the JSON→XML converter and of main's control flow (theorems in Props/C19.lean), tied to the binary by byte-exact comparison"]
+        "and no panic. Distinct = distinct outputs.")
+ASSUMPTIONS = ["clap's tokenisation of argv, the system resolver, serde's derive output, serde_json / quick-xml / bson succeeding or failing, and the Debug text are parameters "
+               "of the model (its theorems hold for all their behaviours); the per-value parsers of the flags, std's IpAddr parser and Display, hex, base64 and "
+               "serde_json's two formatters are mirrored in Lean and compared with the real ones on every run",
+               "the Debug format is only checked for being printed (it has no grammar to validate)",
+               "BSON's binary layout (bson::to_vec) is read back by an independent Python walker, not modelled"]
+TRUSTED = ["Lean model of main (Proto/CliPlan.lean), of the JSON documents and their reader (Proto/CliJson.lean), of hex / base64 (Proto/CliCodec.lean) and of the JSON→XML "
+           "converter (Proto/Cli.lean); theorems in Props/C19.lean, C19_cli.lean, C14_cli.lean, C18_cli.lean; tied to the binary by the plan hook, the print hook and "
+           "byte-exact comparison of the documents"]
 
 CLI_TARGET = os.path.join(vlib.WORK, "cli-target")
 CLI = os.path.join(CLI_TARGET, "debug", "gamedig_cli")
@@ -157,7 +172,13 @@ def xml_unescape(b):
         if (o < 0x20 and ch not in "\t\n\r") or 0x7F <= o <= 0x84 or 0x86 <= o <= 0x9F:
             raise ValueError(f"literal control character U+{o:04X} in an XML 1.1 document")
     t = re.sub("\r\n|\r\x85|\r|\x85|\u2028", "\n", t)
-    return XML_REF.sub(ref, t)
+    t = XML_REF.sub(ref, t)
+    # Char ::= [#x1-#xD7FF] | [#xE000-#xFFFD] | [#x10000-#x10FFFF], literally or by reference
+    for ch in t:
+        o = ord(ch)
+        if o == 0 or 0xD800 <= o <= 0xDFFF or o in (0xFFFE, 0xFFFF):
+            raise ValueError(f"U+{o:04X} is not an XML character")
+    return t
 
 
 def xml_leaves(doc):
@@ -199,15 +220,22 @@ def xml_leaves(doc):
     return leaves
 
 
+def xml_chars(text):
+    """U+0000 and the noncharacters U+FFFE / U+FFFF are no XML characters (not even as references): a faithful rendering shows
+    them as U+FFFD, in text and in the `key` attribute alike"""
+    return text.replace("\0", "\ufffd").replace("\ufffe", "\ufffd").replace("\uffff", "\ufffd")
+
+
 def json_leaves(v, nums, path=(), key=None):
     """the leaves a faithful XML rendering of the JSON value must have: object members under their key, array items
     under the array's key (`item` when it has none), null as an empty element, NUL shown as U+FFFD"""
-    here = path + ((key,) if key is not None else ())
+    here = path + ((xml_chars(key),) if key is not None else ())
     if isinstance(v, dict):
         out = []
         for k in v:
             out += json_leaves(v[k], nums, here, k)
-        if not v and key is not None:
+        if not out and key is not None:
+            # no member (or only empty arrays, which leave nothing): an element without content
             out.append((here, ""))
         return out
     if isinstance(v, list):
@@ -223,7 +251,7 @@ def json_leaves(v, nums, path=(), key=None):
         return [(here, "true" if v else "false")]
     if isinstance(v, (int, float)):
         return [(here, nums.get(num_key(v), repr(v).encode()).decode())]
-    return [(here, v.replace("\0", "\ufffd"))]
+    return [(here, xml_chars(v))]
 
 
 
@@ -238,6 +266,44 @@ def canon_rules(xml):
             return m.group(0)
         return m.group(1) + b"".join(sorted(kids)) + m.group(3)
     return re.sub(rb"(<rules>)(.*?)(</rules>)", fix, xml, flags=re.S)
+
+
+def canon_xml(doc):
+    """maps come out of HashMaps in an order that changes from run to run: siblings sorted by (element name, key attribute),
+    stably, so that the items of an array (same name, same key) keep their order; unreadable input is returned as it is"""
+    try:
+        root, stack = [], []
+        cur = root
+        for m in XML_TOKEN.finditer(doc):
+            if m.group(1) is not None:
+                cur = stack.pop()
+            elif m.group(2) is not None:
+                node = [m.group(2), m.group(3) or b"", [], bool(m.group(4))]
+                cur.append(node)
+                if not m.group(4):
+                    stack.append(cur)
+                    cur = node[2]
+            elif m.group(5) is not None:
+                cur.append(m.group(5))
+            else:
+                cur.append(m.group(0))
+        if stack:
+            return doc
+
+        def emit(items):
+            kids = sorted((x for x in items if isinstance(x, list)), key=lambda n: (n[0], n[1]))
+            it = iter(kids)
+            out = []
+            for x in items:
+                if isinstance(x, list):
+                    n = next(it)
+                    out.append(b"<" + n[0] + n[1] + (b"/>" if n[3] else b">" + emit(n[2]) + b"</" + n[0] + b">"))
+                else:
+                    out.append(x)
+            return b"".join(out)
+        return emit(root)
+    except (IndexError, StopIteration):
+        return doc
 
 
 def bson_decode(b):
@@ -302,6 +368,68 @@ def same_values(a, b):
     return a == b
 
 
+class Original:
+    """the protocol-specific response as `as_original()` wraps it: the value inside one single-member object per enum variant
+    (`{"Valve": …}`, `{"GameSpy": {"One": …}}`)"""
+
+    def __init__(self, value):
+        self.value = value
+
+
+def holds(doc, expected):
+    """does the document hold the expected values? (`Original`: inside its variant wrappers, at least one)"""
+    if not isinstance(expected, Original):
+        return same_values(doc, expected)
+    depth = 0
+    while isinstance(doc, dict) and len(doc) == 1 and depth < 3:
+        (k, inner), = doc.items()
+        if not (k[:1].isupper() and isinstance(inner, dict)):
+            break
+        doc, depth = inner, depth + 1
+        if same_values(doc, expected.value):
+            return True
+    return False
+
+
+# other protocol families over loopback UDP: definitions-table protocol -> (family, (argument index, value) selecting the variant)
+UDP_FAMILIES = {
+    "quake1": ("quake", (1, "1")), "quake2": ("quake", (1, "2")), "quake3": ("quake", (1, "3")), "gs1": ("gs1", None), "gs2": ("gs2", None),
+    "gs3": ("gs3", None), "unreal2": ("unreal2", None), "prop:FFOW": ("ffow", None), "prop:Savage2": ("savage2", None),
+    "prop:TheShip": ("theship", None), "prop:JC2M": ("jc2m", None), "prop:Minecraft(Some(Server::Bedrock))": ("mcbedrock", None),
+}
+
+
+def other_family_jobs(rep, tier, seed):
+    """(game id, case id, case, harness line) for one game of every other protocol family that answers over one UDP socket"""
+    tables = json.load(open(os.path.join(vlib.WORK, "games.json")))
+    out = []
+    for proto, (fam, variant) in UDP_FAMILIES.items():
+        if fam not in netprops.FAMILIES:
+            continue
+        gid = next((d["id"] for d in tables["defs"] if d["proto"] == proto), None)
+        if gid is None:
+            continue
+        picked = 0
+        for v in netprops.valid_cases(fam, seed + 19, 60 if tier == "quick" else 400):
+            c = v.case()
+            if v.notwf or not v.want.startswith("OK") or (variant and c.args[variant[0]] != variant[1]):
+                continue
+            if len(c.script) != 1 or c.script[0] == "X" or any(d is None for d in c.script[0]) or any(o.startswith("f=") for o in c.opts):
+                continue  # one socket, no silence, no injected send fault: an exchange the tool can repeat without retries
+            extra = []
+            if fam == "unreal2":
+                # the case names its gathering settings (mutators-and-rules, then players): the same through the tool's flags
+                word = {"s": "skip", "t": "try", "e": "enforce"}
+                g = c.args[netprops.FAMILIES[fam]["gather"]]
+                extra = ["--gather-rules", word[g[0]], "--gather-players", word[g[1]]]
+            out.append((gid, f"{fam}{picked}", c, c.line(f"{fam}{picked}{gid}"), extra))
+            rep.count("family:" + fam)
+            picked += 1
+            if picked >= (1 if tier == "quick" else 6):
+                break
+    return out
+
+
 def inject_rule_keys(case, valid, rnd):
     """replace the A2S_RULES reply by one whose keys are not XML names / contain markup and control characters"""
     seg = valid.seg()
@@ -316,8 +444,183 @@ def inject_rule_keys(case, valid, rnd):
     return c
 
 
+
+def untok(toks):
+    """tokens of the driver's `json-read` -> python value (numbers through json.loads of their text)"""
+    it = iter(toks)
+
+    def val():
+        t = next(it)
+        if t == "N":
+            return None
+        if t in ("T", "F"):
+            return t == "T"
+        if t.startswith("#"):
+            return json.loads(bytes.fromhex(t[1:]))
+        if t.startswith("S"):
+            return bytes.fromhex(t[1:]).decode("utf-8")
+        n = int(t[1:])
+        if t.startswith("A"):
+            return [val() for _ in range(n)]
+        out = {}
+        for _ in range(n):
+            k = next(it)
+            out["" if k == "-" else bytes.fromhex(k).decode("utf-8")] = val()
+        return out
+    v = val()
+    if next(it, None) is not None:
+        raise ValueError("trailing tokens")
+    return v
+
+
+def value_tokens(v):
+    """python value -> tokens, numbers as serde_json prints them (ints in decimal, floats by their shortest text)"""
+    if v is None:
+        return ["N"]
+    if v is True or v is False:
+        return ["T" if v else "F"]
+    if isinstance(v, (int, float)):
+        return ["#" + repr(v).encode().hex()]
+    if isinstance(v, str):
+        return ["S" + v.encode().hex()]
+    if isinstance(v, list):
+        out = [f"A{len(v)}"]
+        for x in v:
+            out += value_tokens(x)
+        return out
+    out = [f"O{len(v)}"]
+    for k, x in v.items():
+        out += [k.encode().hex() or "-"] + value_tokens(x)
+    return out
+
+
+def hook_tree(rnd, depth=0):
+    """a value every output format can hold (BSON: integers within i64)"""
+    k = rnd.randrange(9 if depth < 4 else 5)
+    if k == 0:
+        return None
+    if k == 1:
+        return rnd.choice([True, False])
+    if k == 2:
+        return rnd.choice([0, -1, 1, 255, 2 ** 31 - 1, 2 ** 31, -2 ** 31 - 1, 2 ** 53, 2 ** 63 - 1, -2 ** 63, 0.5, -2.25, 1234.5, 1.5e300])
+    if k in (3, 4):
+        return cliplan.rand_text(rnd)
+    if k in (5, 6):
+        return [hook_tree(rnd, depth + 1) for _ in range(rnd.choice([0, 1, 2, 3]))]
+    return {cliplan.rand_text(rnd, 5): hook_tree(rnd, depth + 1) for _ in range(rnd.choice([0, 1, 2, 3]))}
+
+
+def run_hook_print(fmt, text):
+    p = subprocess.run([cliplan.HOOK_CLI, "query", "-g", "x", "-i", "x", "-f", fmt], input=text, stdout=subprocess.PIPE, stderr=subprocess.PIPE,
+                       timeout=60, env=dict(os.environ, GAMEDIG_VERIF_PRINT="1"))
+    return p.returncode, p.stdout, p.stderr
+
+
+def hook_documents(rep, tier, seed):
+    """the WRITERS of the real binary (`output_result_*`, reached through the verification hook) on values of every shape — strings
+    over the whole of Unicode, control characters, quotes, keys of every kind, documents of every length modulo 3 — against the
+    model: JSON / pretty JSON / XML byte for byte, BSON-hex / BSON-base64 decoded by the model's decoders (and by Python's)"""
+    ok, log = cliplan.build_hook_cli()
+    if not ok:
+        rep.tie_failures.append("the CLI does not build with the verification hook: " + log[-800:])
+        return
+    rnd = random.Random(seed + 1900)
+    values = [{}, {"a": 1}, {"": ""}] + [{"k": "x" * n} for n in range(0, 7)] + [{"s": "".join(cliplan.TEXT_ALPHABET)}]
+    values += [{cliplan.rand_text(rnd, 5): hook_tree(rnd, 1) for _ in range(rnd.choice([1, 2, 3, 4]))} for _ in range(40 if tier == "quick" else 1500)]
+    values += [hook_tree(rnd) for _ in range(20 if tier == "quick" else 400)]
+    cases, meta = [], {}
+    for n, v in enumerate(values):
+        # NUL cannot be written into a BSON key (cstring); the binary reports that as an error, which is right
+        text = json.dumps(v, ensure_ascii=False).encode("utf-8")
+        toks = value_tokens(v)
+        is_doc = isinstance(v, dict)
+        for fmt in FORMATS[1:]:
+            if fmt.startswith("bson") and not is_doc:
+                continue  # `panic!("… BSON_DOCUMENT_UNAVAILABLE")` by design; a response is always a struct or a map
+            rc, out, err = run_hook_print(fmt, text)
+            key = f"hook:{n}:{fmt}"
+            rep.seen(key, out[:200].decode("utf-8", "replace"))
+            rep.count("hook-format:" + fmt)
+            desc = f"{key} GAMEDIG_VERIF_PRINT=1 gamedig_cli query -g x -i x -f {fmt} <<< {text[:600]!r}"
+            if b"panicked at" in err or rc == 101:
+                rep.oracle_failures.append(("cli-writer-panic:" + fmt, f"panic: {err[-300:]!r}", desc, ""))
+                continue
+            if rc != 0:
+                if fmt.startswith("bson") and b"Bson" in err and has_nul_key(v):
+                    continue
+                rep.oracle_failures.append((f"cli-writer-error:{fmt}", f"exit {rc}, stderr {err[-200:]!r}", desc, ""))
+                continue
+            doc = out[:-1] if out.endswith(b"\n") else out
+            cid = f"w{len(cases)}"
+            if fmt == "json":
+                cases.append(" ".join([cid, "json-print", "c"] + toks)); meta[cid] = ("eq", doc, desc)
+            elif fmt == "json-pretty":
+                cases.append(" ".join([cid, "json-print", "p"] + toks)); meta[cid] = ("eq", doc, desc)
+            elif fmt == "xml":
+                cases.append(" ".join([cid, "xml-of"] + toks)); meta[cid] = ("eq", doc, desc)
+                try:
+                    xml_leaves(doc)
+                    if b"&#x" not in doc:
+                        import xml.parsers.expat
+                        xml.parsers.expat.ParserCreate().Parse(doc.replace(b'version="1.1"', b'version="1.0"'), True)
+                except Exception as e:
+                    rep.oracle_failures.append(("cli-xml-not-wellformed", f"{type(e).__name__}: {e}; {doc[:160]!r}", desc, ""))
+            else:
+                entry, raw = ("hex-dec", None) if fmt == "bson-hex" else ("b64-dec", None)
+                try:
+                    raw = bytes.fromhex(doc.decode()) if fmt == "bson-hex" else base64.b64decode(doc, validate=True)
+                except ValueError as e:
+                    rep.oracle_failures.append((f"cli-malformed:{fmt}", f"{e}; stdout {doc[:120]!r}", desc, ""))
+                    continue
+                cases.append(f"{cid} {entry} {doc.hex() or '-'}"); meta[cid] = ("dec", raw, desc)
+                # and back: the model's encoder on the decoded bytes gives the printed text
+                cid2 = f"w{len(cases)}"
+                cases.append(f"{cid2} {'hex-enc' if fmt == 'bson-hex' else 'b64-enc'} {raw.hex() or '-'}"); meta[cid2] = ("text", doc, desc)
+                try:
+                    if not same_values(bson_decode(raw), v):
+                        rep.oracle_failures.append((f"cli-bson-unfaithful:hook", "BSON differs from the value", desc, ""))
+                except Exception as e:
+                    rep.oracle_failures.append((f"cli-malformed:{fmt}", f"{type(e).__name__}: {e}", desc, ""))
+    model = vlib.run_model(cases)
+    for c in cases:
+        cid = c.split(" ", 1)[0]
+        kind, want, desc = meta[cid]
+        got = model.get(cid, "<no output>")
+        rep.count("hook-compared")
+        if kind == "eq":
+            good = got == (want.hex() or "-")
+        elif kind == "dec":
+            good = got == "OK " + (want.hex() or "-")
+        else:
+            good = got == (want.decode("latin-1") or "-")
+        if not good:
+            rep.divergences.append((c[:2000], got[:600], (want.hex() if kind != "text" else want.decode("latin-1"))[:600], "writer of the real binary differs from the model; " + desc[:400]))
+
+
+def has_nul_key(v):
+    if isinstance(v, dict):
+        return any("\0" in k or has_nul_key(x) for k, x in v.items())
+    if isinstance(v, list):
+        return any(has_nul_key(x) for x in v)
+    return False
+
+
 def run(rep, tier, seed, replay=None):
+    if replay is not None:
+        # case lines of the plan / codec stages are re-run as they are; anything else (a description of a document case) means
+        # the whole run
+        cliplan.run(rep, [l for l in replay if cliplan.is_plan(l)])
+        cliplan.run_codec(rep, [l for l in replay if cliplan.is_codec(l)], tag="c19codec")
+        if all(cliplan.is_plan(l) or cliplan.is_codec(l) for l in replay):
+            return
     rnd = random.Random(seed)
+    # the plan of an invocation: real binary (plan hook) against the model of main, and the exit rules on every invalid invocation
+    cliplan.run(rep, [l for l in netprops.corpus("C19") if cliplan.is_plan(l)])
+    cliplan.run(rep, cliplan.gen(seed + 19, tier))
+    # the mirrors the model's documents are made of, against the crates / std themselves
+    cliplan.run_codec(rep, [l for l in netprops.corpus("C19") if cliplan.is_codec(l)] + cliplan.codec_cases(seed + 19, tier), tag="c19codec")
+    # the writers of the real binary on values of every shape
+    hook_documents(rep, tier, seed)
     ok, log = build_cli()
     if not ok:
         rep.tie_failures.append("the CLI does not build: " + log[-800:])
@@ -375,16 +678,25 @@ def run(rep, tier, seed, replay=None):
                 break
     jobs += big
     # the library's own response for each exchange (in-process, scripted transport)
-    lib_lines = [f"{cid}{gid} valve {c.args[0]} {c.args[1]} {c.args[2]} 0 {c.fmt_script()}" for gid, cid, c in jobs]
+    jobs = [(gid, cid, c, f"{cid}{gid} valve {c.args[0]} {c.args[1]} {c.args[2]} 0 {c.fmt_script()}", []) for gid, cid, c in jobs]
+    jobs += other_family_jobs(rep, tier, seed)
+    lib_lines = [j[3] for j in jobs]
     lib_out, _ = vlib.run_impl(lib_lines, tag="c19")
     xml_cases, xml_meta = [], {}
-    for (gid, cid, c), line in zip(jobs, lib_lines):
+    dec_cases, dec_meta = [], {}
+
+    def decode_with_model(kind, entry_args, want, desc):
+        did = f"d{len(dec_cases)}"
+        dec_cases.append(" ".join([did] + entry_args))
+        dec_meta[did] = (kind, want, desc)
+
+    for gid, cid, c, line, cli_extra in jobs:
         lib_line = lib_out.get(line.split(" ", 1)[0], "")
         dump = vlib.view_of(lib_line)
         if dump is None:
             continue
         dump_raw = bytes.fromhex(lib_line[lib_line.rfind(" ;; V") + 5:])
-        expected = {"generic": dump["json"], "protocol-specific": {"Valve": dump["self"]}}
+        expected = {"generic": dump["json"], "protocol-specific": {"Valve": dump["self"]} if line.split(" ")[1] == "valve" else Original(dump["self"])}
         srv_deliveries = list(c.script[0])
         # how many datagrams answer each request: read off the library's own transport trace of the same exchange
         bursts = []
@@ -399,7 +711,7 @@ def run(rep, tier, seed, replay=None):
                 srv = Server(srv_deliveries, bursts)
                 srv.start()
                 try:
-                    rc, out, err = run_cli(["query", "-g", gid, "-i", "127.0.0.1", "-p", str(srv.port), "-f", fmt, "-o", mode, "--read-timeout", "2"])
+                    rc, out, err = run_cli(["query", "-g", gid, "-i", "127.0.0.1", "-p", str(srv.port), "-f", fmt, "-o", mode, "--read-timeout", "2"] + cli_extra)
                 finally:
                     srv.close()
                 key = f"{cid}:{gid}:{mode}:{fmt}"
@@ -411,7 +723,7 @@ def run(rep, tier, seed, replay=None):
                                                 f"{key} gamedig_cli query -g {gid} -f {fmt} -o {mode}  script={c.fmt_script()[:600]}", ""))
                 rep.seen(key, out[:200].decode("utf-8", "replace"))
                 rep.count("format:" + fmt)
-                case_desc = f"{key} gamedig_cli query -g {gid} -f {fmt} -o {mode}  script={c.fmt_script()[:600]}"
+                case_desc = f"{key} gamedig_cli query -g {gid} -f {fmt} -o {mode} {' '.join(cli_extra)} script={c.fmt_script()[:600]}"
                 if b"panicked at" in err:
                     rep.oracle_failures.append(("cli-panic:" + fmt, f"panic: {err[-300:]!r}", case_desc, ""))
                     continue
@@ -426,12 +738,24 @@ def run(rep, tier, seed, replay=None):
                     if fmt in ("json", "json-pretty"):
                         doc = json.loads(out)
                         json_docs[mode] = out
-                        if not same_values(doc, expected[mode]):
+                        if not holds(doc, expected[mode]):
                             rep.oracle_failures.append((f"cli-json-unfaithful:{mode}", f"JSON differs from the library's response: {out[:200]!r}", case_desc, ""))
+                        # the same through the MODEL's reader (the decoder of the C19_cli theorems): what it reads holds the library's
+                        # values, and the model's printer gives the document back byte for byte
+                        text = out[:-1] if out.endswith(b"\n") else out
+                        decode_with_model("json-values", ["json-read", text.hex() or "-"], (expected[mode], text, "c" if fmt == "json" else "p"), case_desc)
+                        if mode == "generic":
+                            # generic mode prints exactly the common view: the generated accessor tables (C15) evaluated by the model on
+                            # the protocol-specific value, through the model's printer
+                            decode_with_model("eq", ["cli-doc", "g", fmt, dump["file"], dump["type"], dump["pfile"] or "-", dump["ptype"] or "-", "-"] + val_tokens(dump["self"]),
+                                              text, case_desc)
                     elif fmt in ("bson-hex", "bson-base64"):
                         raw = bytes.fromhex(out.strip().decode()) if fmt == "bson-hex" else base64.b64decode(out.strip(), validate=True)
+                        text = out.strip()
+                        decode_with_model("dec", ["hex-dec" if fmt == "bson-hex" else "b64-dec", text.hex() or "-"], raw, case_desc)
+                        decode_with_model("text", ["hex-enc" if fmt == "bson-hex" else "b64-enc", raw.hex() or "-"], text, case_desc)
                         doc = bson_decode(raw)
-                        if not same_values(doc, expected[mode]):
+                        if not holds(doc, expected[mode]):
                             rep.oracle_failures.append((f"cli-bson-unfaithful:{mode}", f"BSON differs from the library's response", case_desc, ""))
                     elif fmt == "xml":
                         if mode in json_docs:
@@ -454,6 +778,34 @@ def run(rep, tier, seed, replay=None):
                                 rep.oracle_failures.append(("cli-xml-not-wellformed", f"reader: {e}; {out[:160]!r}", case_desc, ""))
                 except Exception as e:  # a document that cannot even be read back
                     rep.oracle_failures.append((f"cli-malformed:{fmt}", f"{type(e).__name__}: {e}; stdout {out[:120]!r}", case_desc, ""))
+    dmodel = vlib.run_model(dec_cases)
+    reprint = []
+    for dc in dec_cases:
+        did = dc.split(" ", 1)[0]
+        kind, want, desc = dec_meta[did]
+        got = dmodel.get(did, "<no output>")
+        rep.count("model-decoded:" + dc.split(" ")[1])
+        if kind == "json-values":
+            expected_value, text, style = want
+            try:
+                value = untok(got.split(" "))
+            except (ValueError, StopIteration, UnicodeDecodeError):
+                rep.divergences.append((dc[:2000], got[:300], text[:300].decode("utf-8", "replace"), "the model's JSON reader does not read the document the CLI printed; " + desc[:300]))
+                continue
+            if not holds(value, expected_value):
+                rep.oracle_failures.append(("cli-json-unfaithful:model-reader", "the values the model's reader finds in the document differ from the library's response", desc, ""))
+            rid = f"r{len(reprint)}"
+            reprint.append((f"{rid} json-print {style} {got}", text, desc))
+        else:
+            good = got == ((want.hex() or "-") if kind == "eq" else ("OK " + (want.hex() or "-")) if kind == "dec" else (want.decode("latin-1") or "-"))
+            if not good:
+                rep.divergences.append((dc[:2000], got[:600], (want.decode("latin-1") if kind == "text" else want.hex())[:600], "document of the real binary differs from the model's; " + desc[:300]))
+    rmodel = vlib.run_model([r[0] for r in reprint])
+    for line, text, desc in reprint:
+        got = rmodel.get(line.split(" ", 1)[0], "<no output>")
+        rep.count("model-reprinted")
+        if got != (text.hex() or "-"):
+            rep.divergences.append((line[:2000], got[:600], text.hex()[:600], "the model's JSON printer does not reproduce the CLI's document from its value; " + desc[:300]))
     model = vlib.run_model(xml_cases)
     for xc in xml_cases:
         xid = xc.split(" ", 1)[0]
@@ -461,7 +813,7 @@ def run(rep, tier, seed, replay=None):
         want = model.get(xid, "")
         rep.count("xml-compared")
         want_b = bytes.fromhex(want) if re.fullmatch(r"(?:[0-9a-f]{2})*", want) else None
-        if want_b is None or canon_rules(want_b) != canon_rules(got):
+        if want_b is None or canon_xml(want_b) != canon_xml(got):
             rep.divergences.append((xc[:2000], bytes.fromhex(want).decode("utf-8", "replace")[:600] if re.fullmatch(r"[0-9a-f]*", want) else want,
                                     got.decode("utf-8", "replace")[:600], "CLI XML differs from the model's rendering of the same JSON value; " + desc[:300]))
         # second opinion where XML 1.0 and 1.1 agree: parse with expat
@@ -515,5 +867,6 @@ def run(rep, tier, seed, replay=None):
         if b"panicked at" in err or rc in (0, 101) or not err.strip():
             rep.oracle_failures.append(("cli-bad-exit:" + name, f"exit {rc}, stderr {err[-200:]!r}", "gamedig_cli " + " ".join(args), ""))
     silent.close()
-    rep.extra_cov["explanation"] = ("partial: XML converter (names, nesting, escaping) and main's exit logic are Lean theorems; the serialisers and the process are "
-                                    "exercised by running the real binary and reading its output back with independent readers")
+    rep.extra_cov["explanation"] = ("main from the flag values to the process outcome, the JSON documents with their reader, hex / base64 and the XML converter are Lean "
+                                    "models with theorems (plan, every way out, no panic, the document decodes to the value, generic = common view); serde's derive "
+                                    "output, the serialiser crates' success, BSON's layout, the resolver and the process itself are exercised by running the real binary")
